@@ -18,6 +18,16 @@
 //! below a `ScalarSubqueryExec` that evaluate a `ScalarSubqueryExpr` are run
 //! under a copy of that (pass-through) `ScalarSubqueryExec`, which fills in the
 //! scalar results first and then forwards the node's batches unchanged.
+//! Plans that hold dynamic filters (file scans under a TopK / hash join /
+//! min-max aggregate) are never re-executed through `reset_plan_states`: every
+//! execution uses a plan planned afresh from the SQL text, so no run sees a
+//! filter bound left behind by another run; a consumer whose producer lies
+//! outside the executed sub-plan runs with the filter in its initial
+//! (pass-everything) state.
+//!
+//! Configurations: see `ALL_CONFIGS` (MemTables in three layouts, MemTables
+//! with a declared sort order, sorted Parquet files with collected statistics
+//! in an in-memory object store).
 #![allow(dead_code)]
 
 use arrow::array::{Array, ArrayRef, RecordBatch};
@@ -680,6 +690,7 @@ pub fn explore(ctx: &Ctx, opts: &ExploreOpts, check: &Checker) {
             "databases": dbs.iter().map(|(l, d)| json!({"label": l, "rows": d.show()})).collect::<Vec<_>>(),
             "configurations": opts.configs.iter().map(|c| json!({"name": c, "what": config_description(c)})).collect::<Vec<_>>(),
             "nodes": "every node of every physical plan, every output partition, executed standalone with fresh execution state",
+            "quick_tier_restriction": "the parquet configuration (when in the menu) visits the rich databases number 1, 3, 5, 7, 9, 11 of the list only",
         }),
     );
     // work items: (config, database, chunk of queries)
@@ -687,6 +698,10 @@ pub fn explore(ctx: &Ctx, opts: &ExploreOpts, check: &Checker) {
     let mut work: Vec<(usize, usize, usize)> = vec![];
     for ci in 0..opts.configs.len() {
         for di in 0..dbs.len() {
+            // quick tier: the (costlier) Parquet configuration visits every other rich database
+            if ctx.quick() && opts.configs[ci] == "parquet" && di % 2 == 1 {
+                continue;
+            }
             for ch in 0..qs.len().div_ceil(CHUNK) {
                 work.push((ch, di, ci));
             }
@@ -822,8 +837,4 @@ pub fn debug_main(args: &[String], checker: &Checker) -> bool {
         }
     }
     true
-}
-
-pub fn rows_of(t: &Table) -> &Vec<Row> {
-    &t.rows
 }
